@@ -68,6 +68,11 @@ func (ex *Exec) assumeFieldInvAll(st *State, name, term string) {
 	if !ok {
 		return
 	}
+	// reference 0 is nil: no object lives there; its "fields" read as zero values (a real execution would
+	// have panicked before using them)
+	if s := ex.svSort(name); s.K == KArr && !ex.inFieldInv {
+		ex.vc.assume("(= (select " + term + " 0) " + ex.w.Zero(s.Elem) + ")")
+	}
 	// heap closure: a reference stored in a field is an allocated object (or nil)
 	if s := ex.svSort(name); s.K == KArr && s.Elem.K == KRef && !ex.inFieldInv {
 		ex.regSV("alloc", SInt)
